@@ -251,7 +251,7 @@ def handleHist (a : Args) : String :=
   let jtext : List (Bytes × Bytes) := (splitNE (arg a "jtext") ",").filterMap fun t =>
     match t.splitOn ":" with | [k, v] => some (hb k, hb v) | _ => none
   let txt : Nat → W.CellVal → Bytes := fun md v => match v with
-    | .raw b => (match jtext.find? (fun q => q.1 == b) with | some q => q.2 | none => b)
+    | .raw b _ => (match jtext.find? (fun q => q.1 == b) with | some q => q.2 | none => b)
     | _ => W.text md localCivil E.fmtFloat32 E.fmtFloat64 v
   let mix := argBool a "crcmix"
   let full : List W.Laid := if mix then layoutMix cfg h else W.layout cfg h
